@@ -97,6 +97,15 @@ def _diffence_between(
     return None
 
 
+def _snapshot(value: Any) -> Any:
+    """Return a value to remember for comparison with the next one.
+
+    Parameters, lists and dictionaries can be changed in place by
+    their owner, so a copy is kept for them.
+    """
+    return copy(value) if isinstance(value, (Parameter, list, dict)) else value
+
+
 class Filter(ABC):
     """Represents a filter."""
 
@@ -137,9 +146,7 @@ class _OnChange(Filter):
     async def __call__(self, new_value: Any) -> Any:
         """Set a new value for the callback."""
         if self._value == UNDEFINED or _significantly_changed(self._value, new_value):
-            self._value = (
-                copy(new_value) if isinstance(new_value, Parameter) else new_value
-            )
+            self._value = _snapshot(new_value)
             return await self._callback(new_value)
 
 
@@ -183,9 +190,7 @@ class _Debounce(Filter):
             self._calls = 0
 
         if self._value == UNDEFINED or self._calls >= self._min_calls:
-            self._value = (
-                copy(new_value) if isinstance(new_value, Parameter) else new_value
-            )
+            self._value = _snapshot(new_value)
             self._calls = 0
             return await self._callback(new_value)
 
@@ -266,9 +271,7 @@ class _Delta(Filter):
         """Set a new value for the callback."""
         if self._value == UNDEFINED or _significantly_changed(self._value, new_value):
             old_value = self._value
-            self._value = (
-                copy(new_value) if isinstance(new_value, Parameter) else new_value
-            )
+            self._value = _snapshot(new_value)
             if (
                 self._value != UNDEFINED
                 and (difference := _diffence_between(old_value, new_value)) is not None
